@@ -128,9 +128,11 @@ def call_oauth2(w, name, form, headers, via="form", method="POST"):
     elif via == "rawquery":
         uri = uri + "?" + "&".join(f"{k}={v}" for k, v in form.items() if isinstance(v, str))
         form_ = {}
+    elif via == "json":
+        form_ = {}
     else:
         form_ = {k: v for k, v in form.items() if v is not None}
-    req = Req(method if kind != "authorization" or via == "form" else "GET", uri, form_, headers)
+    req = Req(method if kind != "authorization" or via in ("form", "json") else "GET", uri, form_, headers, json_body=form if via == "json" else None)
     def call():
         try:
             if kind == "authorization":
@@ -584,6 +586,11 @@ def cases(rng, tier):
             for k in base:
                 for v in HOSTILE:
                     out.append({"t": "oauth2", "ep": name, "form": dict(base, **{k: v}), "headers": dict(hdr), "via": via, "mut": k})
+        # the request body is a JSON document (Content-Type: application/json) whose members have the wrong JSON type — through the Flask and Django request wrappers
+        for fw in ("flask", "django"):
+            for k in list(base) + ["code_verifier", "client_assertion", "client_assertion_type", "client_id", "client_secret", "redirect_uri"]:
+                for v in ([1], {"a": 1}, 5, True, None, ["x", "y"], 1.5, ""):
+                    out.append({"t": "oauth2", "ep": name, "form": dict(base, **{k: v}), "headers": dict(hdr), "via": "json", "mut": k + ":json", "fw": fw})
         for extra in ("grant_type", "response_type", "client_id", "client_secret", "request", "request_uri", "id_token_hint", "login_hint", "display", "claims", "resource",
                       "client_assertion", "client_assertion_type"):
             for v in HOSTILE[:12]:
@@ -658,6 +665,14 @@ def cases(rng, tier):
                     "oauth_signature": "AAAA", "oauth_callback": "oob", "oauth_verifier": "ver3"}
             for hv in ("a:b:c", "sp.example:80:80", "[::1]", "[::1]:8443", ":", "::", "sp.example:", ":443", "sp.example:é", "é.example", "sp.example:443:", "a b", "", "\"", "%zz:%zz", LONG):
                 out.append({"t": "oauth1", "ep": ep, "header": None, "query": "", "body": base, "mut": "host", "host": hv})
+            # escapes that decode to another escape (double encoding) or to octets that are not UTF-8, where the base string is built
+            from urllib.parse import urlencode as _ue
+            for pname in ("oauth_consumer_key", "oauth_token", "oauth_nonce", "oauth_timestamp", "oauth_callback", "oauth_verifier", "oauth_version", "x"):
+                for v in ("%ff", "%25ff", "%FF%FE", "%25FF%25FE", "%zz", "%25zz", "%25", "%c3%28", "%25c3%2528"):
+                    b2 = dict(base, **{pname: v})
+                    out.append({"t": "oauth1", "ep": ep, "header": None, "query": "", "body": b2, "mut": pname + ":escape"})
+                    out.append({"t": "oauth1", "ep": ep, "header": None, "query": _ue(b2), "body": None, "mut": pname + ":escape"})
+                    out.append({"t": "oauth1", "ep": ep, "header": "OAuth " + ", ".join(f'{k}="{_ue({"": x})[1:]}"' for k, x in b2.items() if k.startswith("oauth_")), "query": "", "body": None, "mut": pname + ":escape"})
             for au in ("[::1]", "[::1]:8443", "sp.example:", "sp.example:443", "user:pw@sp.example", "user:pw@sp.example:443"):
                 out.append({"t": "oauth1", "ep": ep, "header": None, "query": "", "body": base, "mut": "authority", "authority": au})
     for kind, tok in jwt_endpoint_tokens():
